@@ -29,7 +29,7 @@ m = {
  "setup_cmd": "./check setup",
  "hooks": {
   "guard": "rs_store_verif",
-  "enable": "checks build /repo/src through the out-of-tree manifest /verif/engines/sched/rs-store-sched/Cargo.toml ([lib] path=/repo/src/lib.rs; crossbeam and rusty_pool replaced by shuttle-based stand-ins; verif_rt = shuttle) with RUSTFLAGS='--cfg rs_store_verif'; driver R builds /repo unmodified with the guard off; /repo/Cargo.toml is untouched",
+  "enable": "checks build /repo/src through the out-of-tree manifest /verif/engines/sched/rs-store-sched/Cargo.toml ([lib] path=/repo/src/lib.rs; crossbeam and rusty_pool replaced by shuttle-based stand-ins; verif_rt = engines/sched/shim-rt: shuttle's thread module and shuttle's Mutex behind a guard that yields after unlocking) with RUSTFLAGS='--cfg rs_store_verif'; driver R builds /repo unmodified with the guard off; /repo/Cargo.toml is untouched",
   "baseline_off_cmd": "cd /repo && cargo test --workspace --no-fail-fast --offline",
   "source_commits": [hooks_commit],
   "add_only": True,
@@ -54,7 +54,7 @@ for p in props:
       "replay_cmd_template": "./check replay {path}",
       "engine": "R+S",
       "level_claimed": {"category": "exploration", "text": "Generated-input search: " + what + ". Explores sampled scenarios and sampled schedules of small programs; it finds violations and reports what was covered, it does not establish absence.", "design_ref": "DESIGN.md section 7, " + pid},
-      "level_note": "R: real crate, real crossbeam/rusty_pool, OS schedule (verdicts never depend on wall-clock time). S: shuttle runtime + channel/pool stand-ins + cfg-guarded import substitution, validated by the shim and engine differentials in setup; schedules are sampled (seeded Random and PCT depth 1-3), not enumerated.",
+      "level_note": "R: real crate, real crossbeam/rusty_pool, OS schedule (verdicts never depend on wall-clock time). S: shuttle runtime + channel/pool stand-ins + cfg-guarded import substitution (the crate's Mutex yields after every unlock so that windows right behind a critical section can be entered; the crate is compiled with overflow checks in both flavours), validated by the shim and engine differentials in setup; schedules are sampled (seeded Random and PCT depth 1-3), not enumerated.",
       "technique": tech,
     })
 json.dump(m, open('/verif/MANIFEST.json', 'w'), indent=1)
